@@ -207,6 +207,21 @@ def obligations(tier, rng):
                     if quick and mon == 'ct-offline' and sem not in ('output_robustness', 'input_vacuity'):
                         continue
                     add(p, 'bare', p, sem, io, mon)
+    # (2f) in/out variable propagation through every Boolean and temporal node kind BELOW a predicate (the grammar has one expression rule)
+    below = [(k, X, Y) for k in ('and', 'or', 'implies', 'iff', 'xor', 'since')] + [('since_t', X, Y, 0, 1), ('until_t', X, Y, 0, 1), ('until', X, Y)]
+    below += [(k, X) for k in ('not', 'once', 'historically', 'prev', 's_prev', 'rise', 'fall', 'next', 'eventually', 'always')]
+    below += [(k, X, 0, 1) for k in ('once_t', 'historically_t', 'eventually_t', 'always_t')]
+    for g in below:
+        one = len(variables(g)) == 1
+        for p in ([('geq', g, Y), ('leq', Y, g)] if one else [('geq', g, C1), ('leq', ('sub', Z, g), C1)]):
+            fut = refsem.has_future(p)
+            for sem in (SEMS[1:] if not quick else ['output_robustness', 'input_vacuity']):
+                for xa, ya in itertools.product(('input', 'output'), repeat=2):
+                    io = {'x': xa, 'y': ya, 'z': 'input'}
+                    if quick and p[0] == 'leq' and (xa, ya) != ('input', 'output'):
+                        continue
+                    for mon in (['dt-offline'] if fut else ['dt-offline', 'dt-online']):
+                        add(p, 'below', p, sem, io, mon)
     # (2d) an io type that is set and then CHANGED before parse(): the last declaration counts
     P1 = ('implies', ('geq', X, ('const', 3.0)), ('geq', Y, ('const', 0.5)))
     for p in [P1, ('geq', ('sub', X, Y), C1), ('once_t', ('leq', Y, C1), 0, 1)]:
